@@ -44,7 +44,15 @@ func runSolver(sp solverSpec, file string, timeoutS int) solveResult {
 	cmd.Run()
 	secs := time.Since(t0).Seconds()
 	text := out.String()
-	first := strings.TrimSpace(strings.SplitN(text, "\n", 2)[0])
+	first := ""
+	for _, l := range strings.Split(text, "\n") {
+		l = strings.TrimSpace(l)
+		if l == "" || strings.HasPrefix(l, "WARNING") {
+			continue
+		}
+		first = l
+		break
+	}
 	st := "error"
 	switch {
 	case first == "unsat" || first == "sat" || first == "unknown":
@@ -62,28 +70,50 @@ func runSolver(sp solverSpec, file string, timeoutS int) solveResult {
 func decide(dir string, id int, query string, timeoutS int, confirm bool) (solveResult, []solveResult) {
 	file := filepath.Join(dir, fmt.Sprintf("q%d.smt2", id))
 	os.WriteFile(file, []byte(query), 0644)
-	defer os.Remove(file)
 	var all []solveResult
-	r := runSolver(solvers[0], file, timeoutS)
-	all = append(all, r)
-	if (r.status == "unsat" || r.status == "sat") && !confirm {
-		return r, all
+	// z3-new gets a head start; the other two join if it has not answered
+	ch := make(chan solveResult, 3)
+	go func() { ch <- runSolver(solvers[0], file, timeoutS) }()
+	started := 1
+	var best solveResult
+	have := false
+	timer := time.After(1500 * time.Millisecond)
+	if confirm {
+		timer = time.After(0)
 	}
-	// race the others
-	ch := make(chan solveResult, 2)
-	for _, sp := range solvers[1:] {
-		go func(sp solverSpec) { ch <- runSolver(sp, file, timeoutS) }(sp)
-	}
-	best := r
-	for i := 0; i < 2; i++ {
-		x := <-ch
-		all = append(all, x)
-		if (best.status != "unsat" && best.status != "sat") && (x.status == "unsat" || x.status == "sat") {
-			best = x
-			if !confirm {
-				// let the other one finish in the background (bounded by its own timeout)
-				go func() { <-ch }()
+	got := 0
+	for got < started {
+		select {
+		case x := <-ch:
+			got++
+			all = append(all, x)
+			definitive := x.status == "unsat" || x.status == "sat"
+			if !have || (definitive && !(best.status == "unsat" || best.status == "sat")) || (best.status == "error" && x.status != "error") {
+				best, have = x, true
+			}
+			if definitive && !confirm {
+				// remaining solvers finish in the background (bounded by their own timeout)
+				rest := started - got
+				go func() {
+					for i := 0; i < rest; i++ {
+						<-ch
+					}
+				}()
 				return best, all
+			}
+			if started == 1 {
+				// first solver gave up early: start the others now
+				for _, sp := range solvers[1:] {
+					go func(sp solverSpec) { ch <- runSolver(sp, file, timeoutS) }(sp)
+				}
+				started = 3
+			}
+		case <-timer:
+			if started == 1 {
+				for _, sp := range solvers[1:] {
+					go func(sp solverSpec) { ch <- runSolver(sp, file, timeoutS) }(sp)
+				}
+				started = 3
 			}
 		}
 	}
